@@ -84,6 +84,7 @@ added = {
  "C32-r7": "two certificates of one class sharing a distinguished name (twin appended / twin swapped in), in updates and in base TRCs",
  "C37-r7": "predecessor TRCs that expire before / at / after now independently of the grace period; expired predecessor in a running grace period is now judged (must reject, per trc.rst)",
  "C45-r7": "stored segments and lookups for destinations that differ only in the ISD",
+ "C44-r8": "state family: predecessors that are structural-byte mutants (all 256 values of 6 header bytes) on which the Server stops half way through decoding or answering, followed by well-formed datagrams of every upper-layer kind",
  "C02-r5": "every simulated router recycles one packet object for all packets it processes (pool-style reset), so state left behind by one packet meets the next",
  "C14-r5": "sibling links sharing the internal socket (UDPCanReuseLocal false): receive loop demultiplexes by source address",
  "C48-r4": "rings pre-filled and pre-drained to every fill level / index position before the concurrent phase",
@@ -127,7 +128,8 @@ Two sources of breakage were used; nothing below was ever committed to `/repo`.
 {round_lines}
    (Rounds 6 and 7 were partial rounds on 18 properties each - the ones with the most earlier misses, then the next
    group; for C29 (round 6) and C35 (round 7) the seeding agents found no change that breaks the property and keeps the
-   repository's own tests green.)
+   repository's own tests green. Round 8 went to the 14 properties that had only five seeds so far, one fresh agent per
+   property.)
 
 What the misses had in common - and what the extensions therefore added - were dimensions of *identity* (same AS
 number in another ISD, AS-local interface numbers, stream ids differing in high bits, permuted certificate order),
